@@ -5,7 +5,7 @@ ENTRY = dict(
                 'blob write, deletion marks, priority log, last lock check with re-lock, per-handle phase-2 flips, priority-log removal, unlock, cleanup, rollback from '
                 'every stage, failed phase-2 write with own restore, crash at every step, lock expiry, ageing of timestamps past the hour, priority rollback with the '
                 'version precondition and failover branch) for any number of transactions and nodes, parameterised by three environment hypotheses. '
-                'Proof, unbounded (induction over step sequences, invariant of 10 clauses per transaction + 2 on the ghost history, all 18 step kinds), under all three '
+                'Proof, unbounded (induction over step sequences, invariant of 10 clauses per transaction + 2 on the ghost history, all 19 step kinds), under all three '
                 'hypotheses, for commits that update nodes (no node removals: the _partial): C37_single_successor_partial (between two installs of a successor of the same '
                 'version of a node a logged image was written back), C37_version_monotone_partial (a step changes a registered version only by +1 with an install event of the '
                 'registered version, or by writing back a logged image), C37_claim_exclusive_partial (live claimants are exclusive, hold the lock and read the registered '
